@@ -107,6 +107,8 @@ class FuncVal:
         self.node = node if node is not None else (fi.node if fi else None)
         self.owner = owner     # class the method was found in (for super-ish calls)
 
+    raw = False       # True: the undecorated function object (what a decorator receives)
+
     def bind(self, selfv):
         return FuncVal(self.fi, self.modname, self.closure, selfv, self.node, self.owner)
 
@@ -168,6 +170,22 @@ class DictVal:
     on the current path."""
     def __init__(self, items=()):
         self.items = [list(kv) for kv in items]
+
+
+class SeqList:
+    """Python list of unknown length, held as a z3 sequence (mutable like a list)."""
+    def __init__(self, expr):
+        self.expr = expr
+
+    def elem_sort(self):
+        return self.expr.sort().basis()
+
+
+class PrefList:
+    """Python list = an opaque prefix (never touched) followed by explicit items.
+    Operations that would reach into the prefix cut the path (stated depth bound)."""
+    def __init__(self, prefix_len, items, tag="prefix"):
+        self.prefix_len, self.items, self.tag = prefix_len, list(items), tag
 
 
 class Opaque:
@@ -548,6 +566,10 @@ class Exec:
             return len(v.items) > 0
         if isinstance(v, (ArgsView, QVars, ZSetTuple)):
             return self.compare("!=", self.length(v), 0)
+        if isinstance(v, SeqList):
+            return z3.Length(v.expr) != 0
+        if isinstance(v, PrefList):
+            return True if v.items else (v.prefix_len != 0)
         if isinstance(v, (Obj, FuncVal, Builtin, ClassRef, ModuleRef, Opaque, ExcVal)):
             return True
         if isinstance(v, z3.SeqRef):
